@@ -717,6 +717,21 @@ def rule_membership_answers(ctx, kind=None):
                                     lk = tags.list_kind(prog, b, o.site.node["args"][0], accept_list_params(b))
                                     if contains and lk == "FULL" and ((k["bool"] is True) == c.is_true()):
                                         ok = True
+                if not ok:
+                    # the status is computed by a private helper of the solver that is handed the whole list (a loop with a flag, ..): not followed
+                    hs = []
+                    for cs in b.calls():
+                        t = prog.body_for_callee(callee_of(cs), b) if callee_of(cs) else None
+                        if t is not None and t.kind != "closure" and t.impl and t.impl.get("self_adt") == path and not t.impl.get("trait") and str(t.vis or "").startswith("in:") and "bool" in t.ret_ty:
+                            lp = accept_list_params(b)
+                            if any((op_place(a) or {}).get("l") in lp or any(o.kind == "param" and o.data in lp for o in origins(b, a)) for a in cs.node["args"] if op_place(a) is not None):
+                                hs.append(t)
+                    own = any(callee_decl(callee_of(x)) in ("core::iter::traits::iterator::Iterator::any", "core::iter::traits::iterator::Iterator::all", "core::iter::traits::iterator::Iterator::find", "core::iter::traits::iterator::Iterator::position", "core::slice::contains") for y in prog.with_closures(b) for x in y.calls())
+                    if hs and not own:
+                        r.ok(b.id, "NOT decided: the status is computed by the private helper %s, which is handed the whole list" % hs[0].path.rsplit("::", 1)[-1], b.loc())
+                        ext_ok = any(callee_matches(callee_of(s), ext_src) for y in prog.reachable_from([b], virtual_dispatch=False).values() for s in y.calls())
+                        r.check(ext_ok, b.id + "|extension", "extension-source", "the extension is computed for the whole framework", loc=b.loc())
+                        continue
                 r.check(ok, b.id, "not-membership", "status = any(listed argument in the extension)", "the status is not the membership test `any(listed argument in the computed extension)` over the whole list", b.loc())
                 ext_ok = any(callee_matches(callee_of(s), ext_src) for s in b.calls())
                 r.check(ext_ok, b.id + "|extension", "extension-source", "the extension is computed for the whole framework", loc=b.loc())
@@ -795,7 +810,21 @@ def rule_list_quantifiers(ctx, kind=None):
                 continue
             ok = (q, pc) in (("any", "member"), ("all", "not-member"), ("all", "attacked"))
             r.check(ok, anchor, "%s-of-%s" % (q, pc), "%s(%s) over the listed arguments" % (q, pc), "`%s` is applied to a `%s` test over the listed arguments: a query over several arguments is no longer decided as the disjunction of its members" % (q, pc), s.loc())
-    r.floor(n, 6 if kind is None else 2, "quantifiers over the query list in static acceptance code")
+    # lists gone through by a loop (a flag raised under a membership test, a `filter(..).count()`): not quantifier calls, not judged here
+    n_loops = 0
+    for b in sorted(reach.values(), key=lambda x: x.id):
+        fn = prog.enclosing_fn(b)
+        if b is not fn or not (fn.path.startswith("solvers::") or "<solvers::" in fn.path.split(" as ")[0]):
+            continue
+        lp = list_params_of(fn)
+        if not lp:
+            continue
+        for s in b.calls():
+            d = callee_decl(callee_of(s))
+            if d in ("core::iter::traits::iterator::Iterator::next", "core::iter::traits::iterator::Iterator::count") and tags.list_kind(prog, b, s.node["args"][0], lp) == "FULL":
+                n_loops += 1
+                r.ok("%s|loop@%d" % (b.id, s.bb), "NOT decided: the query list is gone through by a loop / a count, not by any() / all()", s.loc())
+    r.floor(n + n_loops, 6 if kind is None else 2, "quantifiers over the query list in static acceptance code")
 
 
 # ------------------------------------------------------------------------------------------
@@ -1566,6 +1595,14 @@ def rule_single_member_read_guarded(ctx):
                             seen.append("%s %s is %s" % (e[1], k, t))
                             if (e[1] == "Gt" and k == 1 and t is False) or (e[1] == "Ge" and k == 2 and t is False) or (e[1] == "Le" and k == 1 and t is True) or (e[1] == "Lt" and k == 2 and t is True) or (e[1] == "Eq" and k == 1 and t is True) or (e[1] == "Ne" and k == 1 and t is False):
                                 ok = True
+                        # `match args.len() { 0 | 1 => args[0], _ => panic!(..) }`: a switch on the length itself
+                        for y3, c in inherited_conditions(prog, y, s.bb):
+                            if c.is_discr or c.negated or not c.values or "usize" not in y3.local_ty(c.place["l"]):
+                                continue
+                            if any(e[0] == "call" and re.search(r"::len$", e[1]) and e[2] and e[2][0][0] == "param" and e[2][0][1] == fn.path and e[2][0][2] in lp for e in prov(prog, y3, c.place)):
+                                seen.append("len in %s" % c.values)
+                                if set(c.values) <= {"0", "1"}:
+                                    ok = True
                         # the method may also go through the whole list elsewhere (then the constant read is a shortcut, not the answer)
                         def _is_list(y2, a2):
                             q = op_place(a2)
